@@ -371,7 +371,7 @@ class Core:
     def _feasible_concrete(self, st, extra):
         """one-shot check with the sequence theory (used where a spurious alternative is expensive: dynamic dispatch)"""
         s = z3.Solver()
-        s.set("timeout", 3000)
+        s.set("timeout", int(getattr(self, "concrete_feas_ms", 600)))
         for c in st.pc:
             s.add(_abstract_quant(c))
         if extra is not None:
